@@ -7,6 +7,7 @@ CONSTANTS
   ChildOps = {"deq", "dle"}
   WrongOps = {"eq", "in"}
   ChgOK = TRUE
+  HostileOK = FALSE
   NSites = 1
   NTests = 1
   MaxStmts = 2
